@@ -5,6 +5,7 @@ import JenVerif.Gen.Tokens
 import JenVerif.Gen.Reserved
 import JenVerif.Gen.StdHints
 import JenVerif.Gen.IsPrint
+import JenVerif.DriverSyn
 /-
   Line-protocol driver (tie 2): interprets recipes with the model's semantics and prints the
   raw (unformatted) bytes of every render.  Core-only, so it is also built as a `lean_exe`.
@@ -13,26 +14,28 @@ import JenVerif.Gen.IsPrint
 
 open Code
 
-def hexVal (c : UInt8) : UInt8 :=
-  if c ≥ 48 && c ≤ 57 then c - 48 else if c ≥ 97 && c ≤ 102 then c - 87 else if c ≥ 65 && c ≤ 70 then c - 55 else 0
-
-def unescAux : List UInt8 → List UInt8
-  | 37 :: a :: b :: rest => (hexVal a * 16 + hexVal b) :: unescAux rest
-  | c :: rest => c :: unescAux rest
-  | [] => []
-
-def unesc (s : String) : Str := if s == "~" then [] else unescAux s.toUTF8.toList
-
-def escByte (b : UInt8) : List Char :=
-  if (b ≥ 48 && b ≤ 57) || (b ≥ 65 && b ≤ 90) || (b ≥ 97 && b ≤ 122) || b == 46 || b == 47 || b == 95 || b == 45 then
-    [Char.ofNat b.toNat]
-  else ['%', Char.ofNat (Str.hexDigit (b.toNat / 16)).toNat, Char.ofNat (Str.hexDigit (b.toNat % 16)).toNat]
-
-def esc (s : Str) : String := if s.isEmpty then "~" else String.ofList (s.flatMap escByte)
-
 structure DFile where
   st : FileS
   body : List HCode
+  syn : List GoSyn.Decl := []
+
+mutual
+def hOfCode : Code → HCode
+  | .nilc => .nilc
+  | .tok k s => .tok k s
+  | .lit v => .lit v
+  | .group g items => .group g (hOfCodes items)
+  | .stmt items => .stmt (hOfCodes items)
+  | .dict ps => .dict (hOfPairs ps)
+  | .tag items => .tag items
+  | .comment t => .comment t
+def hOfCodes : List Code → List HCode
+  | [] => []
+  | c :: cs => hOfCode c :: hOfCodes cs
+def hOfPairs : List (Code × Code) → List (HCode × HCode)
+  | [] => []
+  | (k, v) :: ps => (hOfCode k, hOfCode v) :: hOfPairs ps
+end
 
 structure DState where
   files : List (Nat × DFile) := []
@@ -42,7 +45,7 @@ structure DState where
 def DState.file (d : DState) (i : Nat) : DFile :=
   match d.files.find? (·.1 == i) with
   | some (_, f) => f
-  | none => ⟨{}, []⟩
+  | none => ⟨{}, [], []⟩
 
 def DState.setFile (d : DState) (i : Nat) (f : DFile) : DState :=
   { d with files := (i, f) :: d.files.filter (·.1 != i) }
@@ -69,33 +72,6 @@ def numTy (s : String) : Option NumTy :=
   | "uint" => some .uint | "uint8" => some .uint8 | "uint16" => some .uint16 | "uint32" => some .uint32
   | "uint64" => some .uint64 | "uintptr" => some .uintptr
   | _ => none
-
-abbrev P := StateT (List String) (Except String)
-
-def next : P String := do
-  match (← get) with
-  | [] => throw "unexpected end of line"
-  | t :: rest => set rest; pure t
-
-def nextNat : P Nat := do
-  let t ← next
-  match t.toNat? with
-  | some n => pure n
-  | none => throw s!"expected number, got {t}"
-
-def nextStr : P Str := do pure (unesc (← next))
-
-def nextReg : P Nat := do
-  let t ← next
-  match (t.drop 1).toNat? with
-  | some n => pure n
-  | none => throw s!"expected register, got {t}"
-
-def rep {α} (n : Nat) (p : P α) : P (List α) := do
-  let mut acc := []
-  for _ in [0:n] do
-    acc := (← p) :: acc
-  pure acc.reverse
 
 mutual
 partial def pArg : P HCode := do
@@ -236,7 +212,7 @@ def step (d : DState) (line : String) : Except String (DState × List String) :=
           pure (i, ({ name := Registry.guessAlias (mkCfg d).toLower p, path := p } : FileS))
         | "pathname" => do let p ← nextStr; let n ← nextStr; pure (i, ({ name := n, path := p } : FileS))
         | _ => throw "bad file kind")
-      pure (d.setFile i ⟨f, []⟩, [])
+      pure (d.setFile i ⟨f, [], []⟩, [])
     | "set" => do
       let (i, k, v) ← run (do let i ← nextReg; let k ← next; let v ← nextStr; pure (i, k, v))
       let f := d.file i
@@ -296,6 +272,11 @@ def step (d : DState) (line : String) : Except String (DState × List String) :=
       let f := d.file i
       let d := { d with heap := Heap.set d.heap r items }
       pure (d.setFile i { f with body := f.body ++ [.ref r] }, [])
+    | "gs" => do
+      -- gs <F> <n> <decl>*n : declarations as GoSyn terms, built with the LEAN builder
+      let (i, ds) ← run (do let i ← nextReg; let n ← nextNat; let ds ← rep n pDecl; pure (i, ds))
+      let f := d.file i
+      pure (d.setFile i { f with body := f.body ++ hOfCodes (ds.map GoSyn.buildD), syn := f.syn ++ ds }, [])
     | "render" => do
       let i ← run nextReg
       let f := d.file i
@@ -305,7 +286,11 @@ def step (d : DState) (line : String) : Except String (DState × List String) :=
         pure (d, ["E misuse"])
       else
         let r := renderFileRaw cfg f.st body
-        pure (d.setFile i { f with st := r.2 }, [s!"R {esc r.1}"])
+        let extra := if f.syn.isEmpty then [] else
+          -- C01: the reference printer's text under the final naming
+          let e : Code.Env := { np := r.2.np, name := fun p => (Registry.lookupImp r.2 p).name }
+          [s!"P {esc (fileHead cfg.isPrint r.2 ++ renderImports cfg.isPrint r.2 ++ GoSyn.printFile e f.syn)}"]
+        pure (d.setFile i { f with st := r.2 }, [s!"R {esc r.1}"] ++ extra)
     | "frag" => do
       let (s, i) ← run (do let s ← nextReg; let i ← nextReg; pure (s, i))
       let f := d.file i
